@@ -180,6 +180,7 @@ static void h_exec(const plan_t *p)
             if (g_aborted) VIOL(h, g_aborted == 2 ? "assert" : "abort", "push aborted");
             m->e[m->n++] = e;
             if ((m->n & (m->n - 1)) == 0) PROBE("push_to_2^k");
+            if (m->n == 256 || m->n == 512) PROBE("heap_reached_256");
             EVT("push", h, e->id, e->prio);
             break;
         case H_POP: do_pop:
@@ -256,14 +257,14 @@ static void h_exec(const plan_t *p)
 static void h_gen(prng_t *r, int mode, plan_t *p)
 {
     int longrun = prng_chance(r, 1, 10), small = !longrun && prng_chance(r, 1, 5);
-    int nops = longrun ? 300 + (int)prng_below(r, 1700) : small ? 2 + (int)prng_below(r, 8) : 10 + (int)prng_below(r, 70);
+    int nops = longrun ? 600 + (int)prng_below(r, 1800) : small ? 2 + (int)prng_below(r, 8) : 10 + (int)prng_below(r, 70);
     unsigned w_clear = mode == 15 ? 10 : 1;
-    unsigned push_w = 35 + (unsigned)prng_below(r, 30);    /* per-run push/pop balance */
+    unsigned push_w = longrun ? 55 + (unsigned)prng_below(r, 25) : 35 + (unsigned)prng_below(r, 30);    /* per-run push/pop balance */
     int i;
     p->cfg[CF_NH] = 1 + prng_below(r, 2);
     p->cfg[CF_PRIOS] = small ? 1 + prng_below(r, 3) : 1 + prng_below(r, 40);
     p->cfg[CF_JUNK] = 1 + prng_below(r, 254);
-    p->cfg[CF_MAXN] = longrun ? 100 + prng_below(r, 900) : small ? 2 + prng_below(r, 6) : 4 + prng_below(r, 60);
+    p->cfg[CF_MAXN] = longrun ? 200 + prng_below(r, 850) : small ? 2 + prng_below(r, 6) : 4 + prng_below(r, 60);
     p->cfg[CF_CLEARFREES] = mode == 15 ? 1 : prng_below(r, 2);
     for (i = 0; i < nops; i++) {
         unsigned x = (unsigned)prng_below(r, 100 + w_clear);
